@@ -305,4 +305,39 @@ def compareRoute (cache pool : String) : Except Err CmpRoute :=
     else .ok (.plain cache (String.ofList p))
   | _ => .error .valueError
 
+/-! ### `QCOW2ImageTransfer.show`: directory listing → state names
+
+`states = [p.replace(format, "") for p in cls.ops.list_paths(path, params)]` with `format = ".qcow2"` for image states and
+`".state"` for vm states.  `str.replace(fmt, "")` removes the leftmost non-overlapping occurrences of `fmt`; it is modelled on
+character lists (the kernel cannot evaluate `String.replace`). -/
+
+/-- `some rest` if `pat` is a prefix of the list -/
+def dropPrefix? : List Char → List Char → Option (List Char)
+  | [], s => some s
+  | _ :: _, [] => none
+  | a :: as, b :: bs => if a == b then dropPrefix? as bs else none
+
+/-- remove the leftmost non-overlapping occurrences of a non-empty `pat` (`fuel` ≥ length of the input) -/
+def removeAllF (pat : List Char) : Nat → List Char → List Char
+  | 0, s => s
+  | _, [] => []
+  | fuel + 1, c :: cs =>
+    match dropPrefix? pat (c :: cs) with
+    | some rest => removeAllF pat fuel rest
+    | none => c :: removeAllF pat fuel cs
+
+def showFormat (isImage : Bool) : String := if isImage then ".qcow2" else ".state"
+
+/-- `p.replace(fmt, "")` -/
+def entryName (fmt p : String) : String :=
+  if fmt.isEmpty then p else String.ofList (removeAllF fmt.toList p.length p.toList)
+
+/-- what `QCOW2ImageTransfer.show` reports for a directory listing -/
+def transferShow (isImage : Bool) (listing : List String) : List String :=
+  listing.map (entryName (showFormat isImage))
+
+/-- the listed directory: `os.path.join(pool_dir, vm_id[/image])` (`state_tag.replace(vm_name, vm_id)`) -/
+def transferShowPath (poolDir vmId image : String) (isImage : Bool) : String :=
+  if isImage then poolDir ++ "/" ++ vmId ++ "/" ++ image else poolDir ++ "/" ++ vmId
+
 end I2N.Pool
